@@ -15,11 +15,12 @@ T == Traces[tid]
 
 TraceInit == /\ tid \in 1..Len(Traces)
              /\ rep = Traces[tid].init /\ cache = {} /\ broken = FALSE /\ last = "init"
+             /\ bufver = 0 /\ memo = -1 /\ stale = FALSE
              /\ l = 1
 
 TraceStep == /\ l <= Len(T.ev)
              /\ LET e == T.ev[l] IN
-                /\ Do(e.op)
+                /\ IF e.op = "refill" THEN Refill ELSE Do(e.op)   \* (refill: the caller rewrote its reusable mask / values buffers)
                 /\ e.eq = 1                                   \* same answer as a fresh grouping
                 /\ (e.rep = "unobservable" \/ rep' = e.rep)   \* internal conformance (skipped if not observable)
              /\ l' = l + 1
